@@ -21,24 +21,31 @@ pub fn run_fs_interleavings(run: &Run) {
     run.count("schedules", schedules);
     run.count("transitions", schedules);
     run.count("traces_validated_against_impl", schedules);
-    run.extra("fs_interleavings", summary.clone());
-    println!("[C18] fs interleavings: {summary}");
+    let mut brief = summary.clone();
+    if let Some(m) = brief.as_object_mut() {
+        m.remove("found");
+    }
+    run.extra("fs_interleavings", brief);
+    println!("[C18] fs interleavings: {}", { let mut b = summary.clone(); if let Some(m) = b.as_object_mut() { m.remove("found"); } b });
     if summary["configs"].as_array().map(|a| a.iter().any(|c| c["capped"] == true)).unwrap_or(false) {
         run.cap_hit("fs interleavings stopped by a cap");
     }
+    let found = summary["found"].as_array().cloned().unwrap_or_default();
+    for v in &found {
+        run.violation(
+            v["clause"].as_str().unwrap_or("file-always-loads"),
+            v["trigger"].as_str().unwrap_or("?"),
+            format!("fs interleavings: {}", v["what"].as_str().unwrap_or("")),
+            serde_json::json!({"engine": "fs-interleaving (vcheck-fs)", "witness": v["witness"]}),
+        );
+    }
     match out.status.code() {
-        Some(0) => {}
-        Some(1) => {
-            // re-report its violations under C18
-            for l in text.lines() {
-                if let Some(rest) = l.trim().strip_prefix("clause=") {
-                    let mut it = rest.splitn(3, ' ');
-                    let clause = it.next().unwrap_or("file-always-loads");
-                    let trig = it.next().unwrap_or("trigger=?").trim_start_matches("trigger=");
-                    run.violation(clause, trig, l.trim().to_string(), serde_json::json!({"engine":"fs-interleaving","see":"replays/C18-fs-*.json"}));
-                }
-            }
-        }
-        other => run.machinery_error(&format!("vcheck-fs failed (exit {other:?}): {}", String::from_utf8_lossy(&out.stderr).chars().take(400).collect::<String>())),
+        Some(0) if found.is_empty() => {}
+        Some(1) if !found.is_empty() => {}
+        other => run.machinery_error(&format!(
+            "vcheck-fs exit status {other:?} does not agree with the {} violation(s) it reported: {}",
+            found.len(),
+            String::from_utf8_lossy(&out.stderr).chars().take(400).collect::<String>()
+        )),
     }
 }
